@@ -9,15 +9,27 @@ NOTE = ('Trusted base: qtmodel (fixed-capacity executable stand-ins for the Qt c
 CLAIMS = {
  'C01': ('model_checking', 'For every handler tree within the bound (kinds, parameters, verdicts, scoped flags, shared handlers and the incoming message state are solver variables) the real Pipeline::process and the per-kind process() adapters deliver to every recording sink exactly what a reference interpreter written from the statement predicts, and leave exactly the predicted residual message state.', '4/C01'),
  'C02': ('model_checking', 'Every nested-preemption schedule (bounded depth/rounds) of producer threads logging through the installed real Logger (processMessage, OwnThreadHandler::process, Pipeline::process, SeqNumberAttr) is decided: at most one thread inside the pipeline, exactly-once delivery, per-thread order, consecutive sequence numbers. Counterexamples replay natively on the real code over the sequentialised Qt model, not on OS threads.', '3.6 and 5'),
+ 'C03': ('model_checking', 'With the logger moved to its own thread, every nested-preemption schedule (bounded) of a producer and the worker event loop is decided: sinks see type, text, file, line, function, category and originating thread id exactly as logged although the caller frees its buffers right after each call, all handler work runs under the worker thread id, delivery is FIFO and respects real-time order (event priorities of the Qt queue are modelled). Counterexamples replay natively on the real code over the sequentialised Qt model.', '3.6 and 5'),
+ 'C08': ('model_checking', 'For every file content within the bound the real compressFile + table-driven calculateCRC32 produce (over the file-system model and the RFC-1950 framing contract of qCompress) a file that an independent gunzip (framing + bitwise reference CRC-32; zlib on replay) decodes to exactly the original bytes, and the original is removed afterwards. Whole rotation histories are not decided (no verdict within the budget).', '5 and 8'),
  'C11': ('model_checking', 'For every number/size of earlier messages and every write-buffer threshold within the bounds, after processMessage(QtFatalMsg) on a synchronous logger the DURABLE bytes of the file sink equal all records (file-system model with user-space buffer). Found and confirmed the missing flush, now fixed.', '5/C11'),
+ 'C19': ('model_checking', 'ONLY the handler-history clause is decided: for every history (bounded) of install / restore / foreign qInstallMessageHandler calls the active Qt handler is the one the rule prescribes (real Logger::installMessageHandler / restorePreviousMessageHandler). The configuration front-ends (INI keys, one-line configure(), end-to-end outputs) are NOT decided by this check.', '8'),
  'C12': ('model_checking', 'parseFormatSpec for every spec string and applyPadding for every value/fill/align/width/mode within the bounds are decided against the documented grammar; parsePattern+format are decided end to end on 13 concrete pattern skeletons with fully symbolic values (every UTF-16 unit, incl. U+200B, %, {, }, surrogates) against a reference formatter written from the docs. Found and confirmed the in-band U+200B marker defect, now fixed.', '4/C12'),
  'C13': ('model_checking', 'For every message / attribute set within the bounds the real JsonFormatter::format + LogMessage::allAttributes hand the serializer exactly one object with the 8 built-in fields and every custom attribute, values intact, and request compact output iff configured. The JSON TEXT (syntax, escaping, one line) is Qt-internal and assumed by contract - stated in evidence.outside.', '4/C13'),
+ 'C14': ('model_checking', 'Within the stated input sizes the solver shows that FunctionToken::cleanup, PrettyFormatter::format (from any internal state) and CategoryFilter (any rule text) violate no Qt precondition (index ranges, empty-container access), no pointer/bounds/overflow check of CBMC and terminate within the loop bounds (unwinding assertions); allocation sizes driven by numbers in the pattern are observed (open known finding). Larger inputs (the property speaks of 64 KiB) are outside what bounded bit-precise checking reaches.', '5/C14'),
  'C15': ('model_checking', 'For every rule pattern / category / type within the bounds the real CategoryFilter (constructor, parseRules, matches, filter) agrees with a glob-based ordered-rules reference; the regular-expression engine is the conformance-tested regex model (closed form for the rule-line expression, position-automaton for the escaped category expressions).', '4/C15'),
  'C18': ('model_checking', 'For every message, category case and attribute set within the bounds the event object built by the real SentryFormatter::format has the required fields, level mapping, logger rule, fingerprint and routes every custom attribute to exactly one slot; id / timestamp text forms are Qt (assumed).', '4/C18'),
  'C16': ('model_checking', 'For all (type,threshold) pairs, all text sequences / counter states within the bounds, the solver shows the real LevelFilter, DuplicateFilter and SeqNumberAttr agree with reference automata written from the statement; inductive one-step harnesses from an arbitrary state extend the sequence claim to any length. RegExpFilter is decided only up to the regex model (Qt/PCRE assumed).', '4/C16'),
  'C17': ('model_checking', 'For every call sequence within the bound, and for ONE call from every sorted list (inductive step), the real SortedPipeline code (with libstdc++ find_if compiled from source) yields exactly the stable-by-class-rank list; found and confirmed the reversed-range defect, now fixed.', '4/C17'),
 }
-NA = {}
+NA = {
+ 'C04': 'harness and model exist (harness/CONC, VF_PROP=4; qtmodel/qm_thread_full.h) but no job returned a verdict within 40 minutes; see DESIGN.md section 8',
+ 'C05': 'file-system model, harness (harness/FS/fs.cpp) and a real-vs-model differential run exist, but CBMC returns no verdict within 25-40 minutes even for histories of 2 writes (string capacity 48 forced by a 47-character pattern literal); DESIGN.md section 8',
+ 'C06': 'same harness as C05 (VF_PROP=6): no verdict within the time budget; DESIGN.md section 8',
+ 'C07': 'same harness as C05 (VF_PROP=7): no verdict within the time budget; DESIGN.md section 8',
+ 'C09': 'same harness as C05 (VF_PROP=9): no verdict within the time budget; DESIGN.md section 8',
+ 'C10': 'the file-system model has crash/fault injection but no finished harness; a real-build replay would need an LD_PRELOAD shim; DESIGN.md section 8',
+ 'C20': 'byte equality between a file and a script output has no input to make symbolic, so a solver cannot decide it; a byte diff would be a different technique (DESIGN.md section 8)',
+}
 checks = []
 for i in ids:
     if i in CLAIMS:
